@@ -67,7 +67,7 @@ func randCurveX(r *core.Rand) string {
 func genEllswift(g *core.Gen) {
 	r := g.R
 	seven := big.NewInt(7)
-	for i := 0; i < g.N(600, 20000); i++ {
+	for i := 0; i < g.N(400, 20000); i++ {
 		u, t := hx(r.Bytes(32)), hx(r.Bytes(32))
 		cls := "xswift-rand"
 		switch r.Intn(4) {
@@ -374,7 +374,7 @@ func genPk(g *core.Gen) {
 			kase(g, "pk-truncate-every", true, pkLine(sec, magic, ini, ps, fmt.Sprintf("t%d", off), recvPlan(ps, 0)))
 		}
 	}
-	for i := 0; i < g.N(1000, 20000); i++ {
+	for i := 0; i < g.N(800, 20000); i++ {
 		n := 1 + r.Intn(6)
 		if r.Chance(1, 30) {
 			n = 222 + r.Intn(6) // tampering around a rekey boundary
@@ -519,7 +519,7 @@ func genEp(g *core.Gen) {
 			}
 		}
 	}
-	for i := 0; i < g.N(10, 150); i++ {
+	for i := 0; i < g.N(8, 150); i++ {
 		emit("ep-valid", mk(-1, -1, r.Intn(8), g.N(3000, 100000)))
 	}
 	// every option a caller can pass: responder admission (rejecting the first / second CPU phase,
@@ -529,7 +529,7 @@ func genEp(g *core.Gen) {
 		f := strings.SplitN(line, " ", 4)
 		return f[0] + " " + f[1] + " " + f[2] + "+" + flags + " " + f[3]
 	}
-	for i := 0; i < g.N(3, 40); i++ {
+	for i := 0; i < g.N(2, 40); i++ {
 		s := mk(-1, -1, r.Intn(3), 0)
 		la := s.a.line(s.wb, append(sendActs(s.pa), recvActs(s.pb, 0)...))
 		lb := s.b.line(s.wa, append(sendActs(s.pb), recvActs(s.pa, 0)...))
@@ -602,7 +602,7 @@ func genEp(g *core.Gen) {
 		kase(g, "ep-v1-mismatch-at-k", true, c.line(inp, nil))
 	}
 	// tampering with the handshake part of the input stream
-	for i := 0; i < g.N(6, 60); i++ {
+	for i := 0; i < g.N(5, 60); i++ {
 		s := mk(int(r.Pick(-1, 0, 3, 4095)), int(r.Pick(-1, 0, 3, 4095)), 1+r.Intn(3), 0)
 		for side := 0; side < 2; side++ {
 			me, peer, inp, mine, theirs := s.a, s.b, s.wb, s.pa, s.pb
